@@ -25,6 +25,12 @@ class Ctx:
     def mod(self, name):
         return self.model.mod(name)
 
+    def imod(self, name):
+        """the module with same-module helper calls inlined (sa/inline.py): what the structural
+        checks read, so that splitting a function into helpers does not change what they see"""
+        from .inline import inlined_module
+        return self.memo(("imod", name), lambda: inlined_module(self.model.mod(name)))
+
     # -- rule patterns ------------------------------------------------------------
     def wrapped(self, text):
         """(wrapped text, Parsed) for a rule pattern, using rule.py's own wrapping."""
